@@ -5,6 +5,7 @@ classes (DNS / NTP client and server) do with a payload; connection bookkeeping.
 import PrimaiteModel.Model.C13Recv
 import PrimaiteModel.Lemmas.RegistriesRep
 import PrimaiteModel.Gen.SoftwareRecv
+import PrimaiteModel.Gen.Software
 namespace Primaite.C13
 open Primaite.Lifecycle Primaite.Registries Primaite.Recv
 
@@ -284,6 +285,26 @@ theorem C13_recv_path_eq_receivers (n : Node) (hwf : WF n) (port proto : Nat) (s
     | some u =>
       obtain ⟨s, hs, hu⟩ := view_of_meta n u (hwf.1 _ (dget_mem _ _ _ hd))
       simp [hs, hu]
+
+/-- `WF` is an invariant: it holds on every node reachable from an empty node by ANY sequence of operations (installs of
+anything — configured or bare, installed already or not —, uninstalls, requests, ticks, power events, payloads) -/
+theorem C13_wf_reachable (p : Power) (up down : Int) (ops : List Op) :
+    WF (Node.run { power := p, upDur := up, downDur := down } ops) := by
+  obtain ⟨es, h⟩ := rep_run ops _ [] (C13_rep_init p up down)
+  exact wf_of_rep _ es h
+
+/-- … and one operation keeps it, from any node whose registries agree -/
+theorem C13_wf_step (n : Node) (es : List Entry) (h : Rep n es) (op : Op) : WF (n.step op).1 := by
+  obtain ⟨es', h'⟩ := rep_step n es h op
+  exact wf_of_rep _ es' h'
+
+/-- **On every reachable node the receive path translated from the source IS `Node.receivers`** — no hypothesis:
+after any operation sequence from an empty node, for every port, protocol and payload kind, the objects whose `receive`
+the model calls are exactly those the translation of `receive_payload_from_session_manager` names, in the same order. -/
+theorem C13_recv_path_reachable (p : Power) (up down : Int) (ops : List Op) (port proto : Nat) (scan : Bool) :
+    let n := Node.run { power := p, upDur := up, downDur := down } ops
+    n.receivers port proto scan = some (recvUids n port proto scan) :=
+  C13_recv_path_eq_receivers _ (C13_wf_reachable p up down ops) port proto scan
 
 /-! ### what a delivery does: only RUNNING software on an ON node processes the payload -/
 
@@ -935,6 +956,222 @@ theorem C13_send_terminates (K : Nat) (w : World) (hs : Small K w) (side : Side)
   simp only [stackCost, itemCost]
   have := Nat.mul_le_mul_left K (callCost_le K p)
   omega
+
+/-! ### the bound `Small K` follows from the class registry
+
+Software is installed from the shipped classes, each under its class's `name`, and a node never holds two programs under one
+name (`Rep.namesNodup`): so a node holds at most as many programs as there are distinct shipped names — a constant
+regenerated from the source (`Gen.Software.classes`). -/
+
+/-- the names under which shipped classes install themselves (regenerated class table) -/
+def shippedNames : List String := (Gen.Software.classes.map (·.2.1)).eraseDups
+
+/-- the operation installs only software of a class named in `S` (every other operation qualifies) -/
+def _root_.Primaite.Registries.Op.installsFrom (S : List String) : Op → Prop
+  | .installSvc c _ _ _ _ => c.name ∈ S
+  | .installApp c _ _ _ _ => c.name ∈ S
+  | .reqInstall _ (some (c, _)) => c.name ∈ S
+  | _ => True
+
+theorem mem_ddel {κ ν} [DecidableEq κ] (l : List (κ × ν)) (k : κ) (x : κ × ν) (h : x ∈ ddel k l) : x ∈ l := by
+  induction l with
+  | nil => simp [ddel] at h
+  | cons a t ih =>
+    obtain ⟨ka, va⟩ := a
+    simp only [ddel] at h
+    by_cases hk : ka = k
+    · simp only [hk, if_true] at h; exact List.mem_cons_of_mem _ h
+    · simp only [hk, if_false, List.mem_cons] at h
+      rcases h with h | h
+      · simp [h]
+      · exact List.mem_cons_of_mem _ (ih h)
+
+theorem uninstall_software_sub (n n' : Node) (name : String) (h : n.uninstall name = some n') :
+    ∀ x ∈ n'.software, x ∈ n.software := by
+  unfold Node.uninstall at h
+  split at h
+  · cases h; exact fun _ hx => hx
+  · split at h
+    · split at h
+      · cases h; exact fun x hx => mem_ddel _ _ x hx
+      · cases h
+    · split at h
+      · split at h
+        · cases h; exact fun x hx => mem_ddel _ _ x hx
+        · cases h
+      · cases h; exact fun x hx => mem_ddel _ _ x hx
+
+theorem evict_software_sub (n n1 : Node) (name : String) (h : n.evict name = some n1) : ∀ x ∈ n1.software, x ∈ n.software := by
+  unfold Node.evict at h
+  split at h
+  · exact uninstall_software_sub n n1 name h
+  · cases h; exact fun _ hx => hx
+
+theorem installSvc_software (n n' : Node) (c : Cls) (cfg : Bool) (l : List Nat) (hl : Health) (f : Int)
+    (h : n.installSvc c cfg l hl f = some n') : ∀ x ∈ n'.software, x ∈ n.software ∨ x.1 = c.name := by
+  unfold Node.installSvc at h
+  split at h
+  · cases h; exact fun x hx => Or.inl hx
+  · cases he : n.evict c.name with
+    | none => simp [he] at h
+    | some n1 =>
+      simp only [he, Option.map_some, Option.some.injEq] at h
+      subst h
+      intro x hx
+      rcases mem_dset _ _ _ x (show x ∈ dset c.name n1.next n1.software from hx) with hx | hx
+      · exact Or.inl (evict_software_sub n n1 c.name he x hx)
+      · exact Or.inr (by rw [hx])
+
+theorem installApp_software (n n' : Node) (c : Cls) (cfg : Bool) (l : List Nat) (hl : Health) (f : Int)
+    (h : n.installApp c cfg l hl f = some n') : ∀ x ∈ n'.software, x ∈ n.software ∨ x.1 = c.name := by
+  unfold Node.installApp at h
+  split at h
+  · cases h; exact fun x hx => Or.inl hx
+  · cases he : n.evict c.name with
+    | none => simp [he] at h
+    | some n1 =>
+      simp only [he, Option.map_some, Option.some.injEq] at h
+      subst h
+      intro x hx
+      rcases mem_dset _ _ _ x (show x ∈ dset c.name n1.next n1.software from hx) with hx | hx
+      · exact Or.inl (evict_software_sub n n1 c.name he x hx)
+      · exact Or.inr (by rw [hx])
+
+/-- one operation: every program listed afterwards was listed before, or is the one the operation installs -/
+theorem step_software_names (S : List String) (n : Node) (op : Op) (hop : op.installsFrom S)
+    (h : ∀ x ∈ n.software, x.1 ∈ S) : ∀ x ∈ (n.step op).1.software, x.1 ∈ S := by
+  have same : ∀ n' : Node, n'.software = n.software → ∀ x ∈ n'.software, x.1 ∈ S := fun n' e x hx => h x (e ▸ hx)
+  cases op with
+  | installSvc c cfg l hl f =>
+    simp only [Node.step]
+    cases hi : n.installSvc c cfg l hl f with
+    | none => exact same n rfl
+    | some n' =>
+      intro x hx
+      rcases installSvc_software n n' c cfg l hl f hi x hx with hx | hx
+      · exact h x hx
+      · rw [hx]; exact hop
+  | installApp c cfg l hl f =>
+    simp only [Node.step]
+    cases hi : n.installApp c cfg l hl f with
+    | none => exact same n rfl
+    | some n' =>
+      intro x hx
+      rcases installApp_software n n' c cfg l hl f hi x hx with hx | hx
+      · exact h x hx
+      · rw [hx]; exact hop
+  | uninstall name =>
+    simp only [Node.step]
+    cases hu : n.uninstall name with
+    | none => exact same n rfl
+    | some n' => exact fun x hx => h x (uninstall_software_sub n n' name hu x hx)
+  | reqInstall name c =>
+    simp only [Node.step]
+    split
+    · exact same n rfl
+    · split
+      · exact same n rfl
+      · cases c with
+        | none => exact same n rfl
+        | some cl =>
+          obtain ⟨c, l⟩ := cl
+          cases hi : n.installApp c false l .good 2 with
+          | none => simp only [hi]; exact same n rfl
+          | some n1 =>
+            simp only [hi]
+            have key : ∀ x ∈ n1.software, x.1 ∈ S := by
+              intro x hx
+              rcases installApp_software n n1 c false l .good 2 hi x hx with hx | hx
+              · exact h x hx
+              · rw [hx]; exact hop
+            split
+            · exact key
+            · exact key
+  | reqUninstall name =>
+    simp only [Node.step]
+    split
+    · exact same n rfl
+    · split
+      · exact same n rfl
+      · cases hu : n.uninstall name with
+        | none => exact same n rfl
+        | some n' => exact fun x hx => h x (uninstall_software_sub n n' name hu x hx)
+  | svcReq name r => exact same _ rfl
+  | appReq name r => exact same _ rfl
+  | svcApi u e =>
+    simp only [Node.step]
+    split
+    · split <;> exact same _ rfl
+    · exact same _ rfl
+  | appApi u e =>
+    simp only [Node.step]
+    split
+    · split <;> exact same _ rfl
+    · exact same _ rfl
+  | tick => simp only [Node.step]; split <;> exact same _ rfl
+  | powerOn =>
+    simp only [Node.step]
+    split
+    · exact same _ rfl
+    · split <;> exact same _ rfl
+  | powerOff =>
+    simp only [Node.step]
+    split
+    · exact same _ rfl
+    · split <;> exact same _ rfl
+  | reqStartup =>
+    simp only [Node.step]
+    split
+    · exact same _ rfl
+    · split <;> exact same _ rfl
+  | reqShutdown =>
+    simp only [Node.step]
+    split
+    · exact same _ rfl
+    · split <;> exact same _ rfl
+  | deliver p pr sc => exact same _ rfl
+  | frame hd sc => simp only [Node.step]; split <;> exact same _ rfl
+  | send u => simp only [Node.step]; split <;> exact same _ rfl
+
+theorem run_software_names (S : List String) (ops : List Op) (n : Node) (hops : ∀ op ∈ ops, op.installsFrom S)
+    (h : ∀ x ∈ n.software, x.1 ∈ S) : ∀ x ∈ (n.run ops).software, x.1 ∈ S := by
+  induction ops generalizing n with
+  | nil => exact h
+  | cons op ops ih =>
+    exact ih _ (fun o ho => hops o (by simp [ho])) (step_software_names S n op (hops op (by simp)) h)
+
+/-- **A node never holds more programs than there are names in the class registry**: after any operation sequence that
+installs from `S`, the software list is no longer than `S`. -/
+theorem C13_software_count_le (S : List String) (p : Power) (up down : Int) (ops : List Op)
+    (hops : ∀ op ∈ ops, op.installsFrom S) :
+    (Node.run { power := p, upDur := up, downDur := down } ops).software.length ≤ S.length := by
+  obtain ⟨es, hr⟩ := rep_run ops _ [] (C13_rep_init p up down)
+  have hn := run_software_names S ops { power := p, upDur := up, downDur := down } hops (by simp)
+  have hnd : ((Node.run { power := p, upDur := up, downDur := down } ops).software.map (·.1)).Nodup := by
+    rw [hr.software]
+    have : (es.map Entry.kv).map (·.1) = es.map (·.name) := by simp [Entry.kv, List.map_map, Function.comp_def]
+    rw [this]; exact hr.namesNodup
+  have := List.Nodup.length_le_of_subset hnd (l₂ := S) (by
+    intro y hy
+    obtain ⟨x, hx, rfl⟩ := List.mem_map.mp hy
+    exact hn x hx)
+  simpa using this
+
+/-- **Every exchange between two nodes built from shipped software terminates** — no bound assumed: both nodes reachable by
+any operation sequences that install shipped classes (whatever their class data, clocks and addresses), any sender, any
+destination, any payload: the transport does not run out of fuel.  The number of shipped names and `fuel` are constants
+(`shippedNames` is regenerated from the source); the arithmetic is `decide`d. -/
+theorem C13_send_terminates_shipped (w : World) (pa pb : Power) (ua da ub db : Int) (opsA opsB : List Op)
+    (hA : w.a.n = Node.run { power := pa, upDur := ua, downDur := da } opsA)
+    (hB : w.b.n = Node.run { power := pb, upDur := ub, downDur := db } opsB)
+    (hopsA : ∀ op ∈ opsA, op.installsFrom shippedNames) (hopsB : ∀ op ∈ opsB, op.installsFrom shippedNames)
+    (side : Side) (u ip port proto : Nat) (p : Payload) :
+    (w.send side u ip port proto p).overflow = w.overflow := by
+  have hs : Small (shippedNames.length + 1) w := by
+    constructor
+    · rw [hA]; exact Nat.succ_le_succ (C13_software_count_le _ pa ua da opsA hopsA)
+    · rw [hB]; exact Nat.succ_le_succ (C13_software_count_le _ pb ub db opsB hopsB)
+  exact C13_send_terminates _ w hs side u ip port proto p (by decide)
 
 /-- non-vacuity: the two-node world of the DNS example is `Small 4`, and `2 + 4 * 7 ≤ fuel` -/
 example : 2 + 4 * (4 + 3) ≤ World.fuel := by decide
